@@ -88,27 +88,33 @@ Proof.
   - destruct (t_peer a =? q); [reflexivity | exact IH].
 Qed.
 
-(* entries of l' come from entries of l with the same peer; positions of peers other than p are unchanged *)
+(* entries of l' that do not belong to peer p come from entries of l with the same peer and the same position *)
 Definition ents (p : N) (l l' : list transfer) : Prop :=
-  forall t', In t' l' -> exists u, In u l /\ t_peer u = t_peer t' /\ (t_peer t' <> p -> t_pos t' = t_pos u).
+  forall t', In t' l' -> t_peer t' = p \/ exists u, In u l /\ t_peer u = t_peer t' /\ t_pos u = t_pos t'.
 
 Lemma ents_refl : forall p l, ents p l l.
-Proof. intros p l t' Ht. exists t'. auto. Qed.
+Proof. intros p l t' Ht. right. exists t'. auto. Qed.
 Lemma ents_trans : forall p l1 l2 l3, ents p l1 l2 -> ents p l2 l3 -> ents p l1 l3.
 Proof.
-  intros p l1 l2 l3 A B t' Ht. destruct (B t' Ht) as (u & Hu & E1 & E2). destruct (A u Hu) as (v & Hv & E3 & E4).
-  exists v. repeat split; auto; try congruence. intro Hn. rewrite (E2 Hn). apply E4. congruence.
+  intros p l1 l2 l3 A B t' Ht. destruct (B t' Ht) as [E|(u & Hu & E1 & E2)]; [left; exact E|].
+  destruct (A u Hu) as [E|(v & Hv & E3 & E4)]; [left; congruence|]. right. exists v. repeat split; auto; congruence.
 Qed.
 Lemma ents_filter : forall p P l, ents p l (filter P l).
-Proof. intros p P l t' Ht. apply filter_In in Ht. exists t'. tauto. Qed.
-Lemma ents_upd : forall p q f l, (forall u, t_peer (f u) = t_peer u /\ (q <> p -> t_pos (f u) = t_pos u)) -> ents p l (upd_tr q f l).
+Proof. intros p P l t' Ht. apply filter_In in Ht. right. exists t'. tauto. Qed.
+Lemma ents_sub : forall p l l', (forall t, In t l' -> In t l) -> ents p l l'.
+Proof. intros p l l' S t' Ht. right. exists t'. auto. Qed.
+(* updating the entries of peer q: the position is kept, or q is the acting peer *)
+Lemma ents_upd : forall p q f l, (forall u, t_peer u = q -> t_peer (f u) = q /\ (q = p \/ t_pos (f u) = t_pos u)) -> ents p l (upd_tr q f l).
 Proof.
-  intros p q f l Hf t' Ht. apply in_upd_tr in Ht. destruct Ht as (u & Hu & E). exists u. split; [exact Hu|].
-  destruct (t_peer u =? q) eqn:Eq; subst t'; [|auto]. destruct (Hf u) as [A B]. split; [auto|].
-  intro Hn. apply N.eqb_eq in Eq. apply B. intro. subst. rewrite A in Hn. contradiction.
+  intros p q f l Hf t' Ht. apply in_upd_tr in Ht. destruct Ht as (u & Hu & E).
+  destruct (t_peer u =? q) eqn:Eq; subst t'.
+  - apply N.eqb_eq in Eq. destruct (Hf u Eq) as [A [B|B]].
+    + left. congruence.
+    + right. exists u. repeat split; auto; congruence.
+  - right. exists u. auto.
 Qed.
-Lemma ents_app_new : forall p l a, t_peer a = p -> ents p (l ++ [a]) (l ++ [a]).
-Proof. intros. apply ents_refl. Qed.
+Lemma ents_app_new : forall p l a, t_peer a = p -> ents p l (l ++ [a]).
+Proof. intros p l a E t' Ht. apply in_app_or in Ht. destruct Ht as [Ht|[<-|[]]]; [right; exists t'; auto | left; exact E]. Qed.
 
 Lemma take_leaders_app : forall l a b, take_leaders l = (a, b) -> l = a ++ b.
 Proof.
@@ -121,43 +127,31 @@ Qed.
 
 Lemma erase_tr_facts : forall p x,
   key (erase_tr p x) = key x /\ b_len (erase_tr p x) = b_len x /\ ents p (b_trans x) (b_trans (erase_tr p x)) /\
-  (forall t', In t' (b_trans (erase_tr p x)) -> t_peer t' <> p) /\
   (forall q, b_leader x = Some q -> q <> p -> finished (erase_tr p x) = finished x).
 Proof.
   intros p x. unfold erase_tr.
-  assert (RM : ents p (b_trans x) (rm_tr p (b_trans x))) by apply ents_filter.
-  assert (NP : forall t', In t' (rm_tr p (b_trans x)) -> t_peer t' <> p).
-  { intros t' Ht. apply filter_In in Ht. destruct Ht as [_ Ht]. apply negb_true_iff in Ht. apply N.eqb_neq in Ht. exact Ht. }
+  assert (RM : forall t', In t' (rm_tr p (b_trans x)) -> In t' (b_trans x)) by (intros t' Ht; apply filter_In in Ht; apply Ht).
   destruct (b_leader x) as [q|] eqn:L.
   - destruct (q =? p) eqn:E.
     + destruct (take_leaders (rm_tr p (b_trans x))) as [pre rest] eqn:TL. apply take_leaders_app in TL.
-      assert (SUB : forall t', In t' (pre ++ filter is_notleader_t rest ++ filter (fun t => negb (is_notleader_t t)) rest) -> In t' (rm_tr p (b_trans x))).
-      { intros t' Ht. rewrite TL. apply in_app_or in Ht. apply in_or_app. destruct Ht as [Ht|Ht]; [left; exact Ht|right].
+      assert (SUB : forall t', In t' (pre ++ filter is_notleader_t rest ++ filter (fun t => negb (is_notleader_t t)) rest) -> In t' (b_trans x)).
+      { intros t' Ht. apply RM. rewrite TL. apply in_app_or in Ht. apply in_or_app. destruct Ht as [Ht|Ht]; [left; exact Ht|right].
         apply in_app_or in Ht. destruct Ht as [Ht|Ht]; apply filter_In in Ht; apply Ht. }
       apply N.eqb_eq in E. subst q.
       destruct (max_pos_tr (filter is_notleader_t rest) None) as [t|]; simpl; (repeat split; try reflexivity).
-      * intros t' Ht. apply in_upd_tr in Ht. destruct Ht as (u & Hu & Eu). apply SUB in Hu.
-        destruct (RM u Hu) as (v & Hv & E1 & E2). exists v. split; [exact Hv|].
-        destruct (t_peer u =? t_peer t); subst t'; simpl; auto.
-      * intros t' Ht. apply in_upd_tr in Ht. destruct Ht as (u & Hu & Eu). apply SUB in Hu. apply NP in Hu.
-        destruct (t_peer u =? t_peer t); subst t'; simpl; auto.
+      * eapply ents_trans; [apply ents_sub; exact SUB|]. apply ents_upd. intros u Eu. simpl. auto.
       * intros q Hq Hne. inversion Hq; subst. contradiction.
-      * intros t' Ht. apply filter_In in Ht. destruct Ht as [Ht _]. apply SUB in Ht. apply RM. exact Ht.
-      * intros t' Ht. apply filter_In in Ht. destruct Ht as [Ht _]. apply SUB in Ht. apply NP. exact Ht.
+      * apply ents_sub. intros t' Ht. apply filter_In in Ht. apply SUB. apply Ht.
       * intros q Hq Hne. inversion Hq; subst. contradiction.
-    + simpl. repeat split; try reflexivity; auto.
-      intros q0 Hq Hne. inversion Hq; subst q0. unfold finished. simpl. rewrite L. rewrite find_tr_rm_other; auto.
-  - simpl. repeat split; try reflexivity; auto. intros q Hq. discriminate.
+    + simpl. repeat split; try reflexivity.
+      * apply ents_sub. exact RM.
+      * intros q0 Hq Hne. inversion Hq; subst q0. unfold finished. simpl. rewrite L. rewrite find_tr_rm_other; auto.
+  - simpl. repeat split; try reflexivity.
+    + apply ents_sub. exact RM.
+    + intros q Hq. discriminate.
 Qed.
 
 Section Inv.
-Variable H : list N -> list N.
-Variable expected : N -> list N.
-Variable npieces : N.
-Variable psize : N -> N.
-Hypothesis psize_pos : forall i, i < npieces -> 0 < psize i.
-Notation accept := (accept H expected npieces psize).
-Notation run := (run H expected npieces psize).
 
 (* the transfer a connection is receiving has not reached the end of its block *)
 Definition CL (s : state) : Prop :=
